@@ -53,6 +53,7 @@ class Report:
         self.samples = []
         self.errors = []     # harness errors (strings)
         self.extra = {}
+        self.slowest = []
 
     def merge(self, other):
         self.evaluations += other.evaluations
@@ -72,6 +73,7 @@ class Report:
                     cur[1:] = v[1:]
         self.samples.extend(other.samples)
         self.errors.extend(other.errors)
+        self.slowest = sorted(self.slowest + getattr(other, 'slowest', []), reverse=True)[:5]
         for k, v in other.extra.items():
             if isinstance(v, (int, float)):
                 self.extra[k] = self.extra.get(k, 0) + v
@@ -98,23 +100,30 @@ class Report:
 
 def _worker(shard, nshards, cases, check_case, timeout_s, path, sample_every, init=None):
     rep = Report()
+    slow = [(0.0, ''), (0.0, '')]
     try:
         if init is not None:
             init()
         for index, case in enumerate(cases()):
             if index % nshards != shard:
                 continue
+            t0 = time.time()
             try:
                 with guard.watchdog(timeout_s):
                     out = check_case(case)
             except guard.CaseTimeout:
                 rep.timeouts += 1
                 out = Outcome(cls='timeout', viols=[('timeout', 'case exceeded %ss watchdog' % timeout_s)])
+            dt = time.time() - t0
+            if dt > slow[0][0]:
+                slow[0] = (round(dt, 2), repr(case)[:160])
+                slow.sort()
             rep.add(index, case, out)
             if len(rep.samples) < 2 and (index // nshards) % sample_every == 0:
                 rep.samples.append({'case': case, 'outcome': out.cls})
     except BaseException:
         rep.errors.append('shard %d: %s' % (shard, traceback.format_exc()))
+    rep.slowest = [x for x in slow if x[0] > 0]
     with open(path, 'wb') as f:
         pickle.dump(rep, f)
 
